@@ -117,6 +117,14 @@ def projCheckLe {α : Type} (vec : List α) (idx : Nat) : Except Unit (Option α
 /-- `EvalStage::Stage(n).increment()` with `n : u8`: `none` = `attempt to add with overflow` -/
 def incrementStage (n : Nat) : Option Nat := if n + 1 ≤ 255 then some (n + 1) else none
 
+/-- `increment` since /repo c4d9327: `n.saturating_add(1)` on `u8` -/
+def incrementStageSat (n : Nat) : Nat := min (n + 1) 255
+
+/-- stage reached inside `k` nested quotes with the saturating counter -/
+def nestQuotesSat : Nat → Nat → Nat
+  | 0, s => s
+  | k + 1, s => nestQuotesSat k (incrementStageSat s)
+
 /-- stage reached inside `k` nested quotes starting from stage `s` -/
 def nestQuotes : Nat → Nat → Option Nat
   | 0, s => some s
